@@ -187,6 +187,11 @@ def run(ctx):
                                   "without the abstract run of the lexer reaching a panic")
     from . import lexrun as _lr
     _lr.probe_rule(ctx, "C07-reader-probes")
+    ctx.rule("C07-expander-probes", "rule sets whose template elements under an ellipsis mention variables matched to runs of different "
+                                    "lengths (either order), variables from outside the ellipsis, nested runs: the abstract run of the expander "
+                                    "reaches no panic")
+    from . import expandtables as _et2
+    _et2.rule_probes(ctx, "C07-expander-probes")
     ctx.rule("C07-main", "front-end I/O unwraps in main are the only panic sites of the binary")
     mainf = fb.find("main", crate="bin")
     n = 0
@@ -433,11 +438,37 @@ class Discharger:
     def discharge(self, f, b, t, kind, what):
         for rule in (self.d_vector_table, self.d_arity, self.d_arity_user, self.d_dominating_test, self.d_checked_key, self.d_nonempty, self.d_container_variant, self.d_variant_runs,
                      self.d_table, self.d_counter, self.d_total_cast, self.d_const_index, self.d_front_insert, self.d_front_remove, self.d_bounds, self.d_map_key_present, self.d_cell_momentary, self.d_borrow, self.d_known_arith,
-                     self.d_const_input, self.d_div_guarded, self.d_zero_checked, self.d_variant_runs_callers):
+                     self.d_const_input, self.d_div_guarded, self.d_zero_checked, self.d_variant_runs_callers, self.d_expander_probes):
             r = rule(f, b, t, kind, what)
             if r is not None:
                 return r
         return (False, None, "no discharge rule applies")
+
+    # -------------------------------------------------------------- D-expander-probes
+    def d_expander_probes(self, f, b, t, kind, what):
+        """an indexing site in the template instantiation code for which no argument applies: whether the index stays below the
+        length depends on how two walks over the same template relate, which none of the arguments above can express.  The expander
+        probes (expandtables.PROBES: run lengths that differ in either order, variables from outside the ellipsis, nested runs)
+        are followed through this code: a probe that reaches the panic is the violation; when every probe goes through this
+        function and none panics there is neither a proof nor a counterexample — UNDECIDED."""
+        if not (kind == "std-panicky" and what in ("index", "index_mut") and "parser::macros::" in f.name and "SyntaxTemplate" in f.name):
+            return None
+        from . import expandtables
+        try:
+            rows = expandtables.probes(self.fb)
+        except Exception as e:  # pragma: no cover
+            return (None, "D-expander-probes", "the expander probes could not be run: %r" % (e,))
+        fn = f.name.split("::{closure")[0]
+        hit = [r for r in rows if r[2][0] == "panic" and str(r[2][2]).split("::{closure")[0] == fn]
+        if hit:
+            return (False, "D-expander-probes", "reached with an index beyond the length: expanding %s on (m %s panics (%s)" % (hit[0][0], (hit[0][1] or "()")[1:], hit[0][2][1]))
+        through = [r for r in rows if r[2][0] == "ok" and any(str(v).split("::{closure")[0] == fn for v in r[3])]
+        stuck = [r for r in rows if r[2][0] == "stuck"]
+        if through:
+            return (None, "D-expander-probes", "no argument bounds the index; %d expander probes with run lengths that differ in either order go "
+                    "through this function without reaching the panic%s (neither a proof nor a counterexample)" % (
+                        len(through), (", %d could not be followed" % len(stuck)) if stuck else ""))
+        return None
 
     # -------------------------------------------------------------- helpers
     def _is_procedure_body_end(self, f, t):
@@ -1336,7 +1367,14 @@ class Discharger:
 
     # -------------------------------------------------------------- D-div-guarded
     def d_div_guarded(self, f, b, t, kind, what):
-        if kind != "assert" or not (what.startswith("DivisionByZero") or what.startswith("RemainderByZero")):
+        if kind == "std-panicky" and what in self.INT_DIV_METHODS and f.name in ("values::Number::floor", "values::Number::ceiling") and \
+                len(t.get("args") or []) >= 2 and mir.trace_access(f, t["args"][1]) == (1, ["Rational", 1]):
+            # an integer division method of the same operands as the `/` it stands for: the divisor is the denominator of the ratio
+            # the function was called on.  Zero: the invariant below.  i32::MIN over -1 (the method's other panic): denominators are
+            # positive (C09-denominator-sign decides that for every function that builds a ratio)
+            self.ctx.assume("ratio denominators are positive (C09-denominator-sign): an integer division method applied to a ratio's "
+                            "numerator and denominator never sees the divisor -1")
+        elif kind != "assert" or not (what.startswith("DivisionByZero") or what.startswith("RemainderByZero")):
             return None
         DIVF = "<values::Number as std::ops::Div>::div"
         if f.name.split("::{closure")[0] == DIVF:
